@@ -2434,3 +2434,11 @@ package gomatrixserverlib
 //@   requires r != nil
 //@   calls allowed@root provider-emptied-for-this-event: ncalls(Clear) == ncalls(allowed) + 1
 //@   loop 1: invariant ncalls(Clear) == ncalls(allowed)
+
+// Kahn's algorithm over auth events: while the incoming-edge counts are being collected no count is ever lowered
+// or reset (an event listed after one of its children keeps the edges already counted)
+//@ func kahnsAlgorithmUsingAuthEvents
+//@   property C11
+//@   nosafety
+//@   loop 1: step counts-only-grow: forall id string :: old(id in inDegree) ==> (id in inDegree && inDegree[id] >= old(inDegree[id]))
+//@   loop 2: invariant forall id string :: athead(1, id in inDegree) ==> (id in inDegree && inDegree[id] >= athead(1, inDegree[id]))
